@@ -55,6 +55,12 @@ const (
 type listItem struct {
 	Text  string
 	Level int
+	// Ordered reports whether the list this item belongs to is an ordered list. A
+	// nested list may be of the other kind than the list around it, so the kind is
+	// recorded per item; HasKind is false for items built without it, which take
+	// the kind of the whole list element.
+	Ordered bool
+	HasKind bool
 }
 
 // ParsedTable represents a table extracted from HTML.
